@@ -1,0 +1,31 @@
+//go:build verif
+
+package blobclient
+
+import (
+	"sync/atomic"
+
+	"github.com/cenkalti/backoff"
+)
+
+// Poll back-off override for the verification harness (build tag verif): the
+// default back-off of the cluster client starts at one second, which a check
+// running thousands of scripted 202 answers cannot wait for.
+
+var verifPollBackOffFn atomic.Value // func() backoff.BackOff
+
+func verifPollBackOff() backoff.BackOff {
+	if fn, ok := verifPollBackOffFn.Load().(func() backoff.BackOff); ok && fn != nil {
+		return fn()
+	}
+	return nil
+}
+
+// VerifSetPollBackOff installs (or, with nil, removes) the factory of the
+// back-off used by ClusterClient.DownloadBlob and ClusterClient.ReplicateToRemote.
+func VerifSetPollBackOff(fn func() backoff.BackOff) {
+	if fn == nil {
+		fn = func() backoff.BackOff { return nil }
+	}
+	verifPollBackOffFn.Store(fn)
+}
